@@ -94,11 +94,13 @@ var c14 = newChk("C14", "dispatch",
 		serialOf := map[int]int{} // read index → serial
 		var serveErr error
 		consumed := 0
+		var readLog [][]byte
 		serveDone := false
 		earlyReturn := ""
 		sockErr := errors.New("socket failed")
 		prob := inBubble(curT, func() {
 			conn := netsim.New(4096)
+			conn.LogReads = true
 			handle := func(serial int, enc func() []byte, peer func() string) {
 				cl := &c14Call{serial: serial, encAtCall: enc(), peerAtCall: peer()}
 				mu.Lock()
@@ -125,7 +127,7 @@ var c14 = newChk("C14", "dispatch",
 				go func() { serveErr = s.Serve(); serveDone = true }()
 				defer s.Close()
 				c14Drive(c, conn, func() { s.Close() }, releases, serialOf, &mu, &serveDone, &earlyReturn, sockErr)
-				consumed = conn.Reads()
+				consumed, readLog = conn.Reads(), conn.ReadLog()
 			} else {
 				s, err := server4.NewServer("", nil, func(_ net.PacketConn, peer net.Addr, m *dhcpv4.DHCPv4) {
 					if m == nil {
@@ -140,7 +142,7 @@ var c14 = newChk("C14", "dispatch",
 				go func() { serveErr = s.Serve(); serveDone = true }()
 				defer s.Close()
 				c14Drive(c, conn, func() { s.Close() }, releases, serialOf, &mu, &serveDone, &earlyReturn, sockErr)
-				consumed = conn.Reads()
+				consumed, readLog = conn.Reads(), conn.ReadLog()
 			}
 		})
 		if prob != "" {
@@ -180,6 +182,11 @@ var c14 = newChk("C14", "dispatch",
 			ser := -1
 			// whether a datagram decodes is decided by decoding it (what "decodes" means is C05's business)
 			wire := c14Bytes(c.V6, r, serialOf[i])
+			// a datagram longer than an Ethernet-MTU DHCP message may be cut by the server's read buffer, as a UDP socket
+			// does: what was "read from the socket" is then what the scripted socket handed over
+			if len(wire) > 1500 && i < len(readLog) {
+				wire = readLog[i]
+			}
 			if c.V6 {
 				if d, err := dhcpv6.FromBytes(wire); err == nil {
 					enc, ok, ser = d.ToBytes(), true, serial6(d)
